@@ -235,7 +235,11 @@ def signal_for(family, uid, chans, samples):
         c = np.arange(max(chans, 1))[:, None]
         return (1 + (3 * i + 5 * c + 7 * uid + (i * i) % 3) % 7).astype(np.float64)
     rs = np.random.RandomState(uid * 7919 + samples * 31 + chans)
-    return rs.randint(-(2 ** 13), 2 ** 13, size=(max(chans, 1), samples)).astype(np.float64)
+    x = rs.randint(-(2 ** 13), 2 ** 13, size=(max(chans, 1), samples)).astype(np.float64)
+    if uid % 5 == 3:
+        # every fifth utterance starts with digital silence (70 %): its first frames are stored at the log floor
+        x[:, : (7 * samples) // 10] = 0.0
+    return x
 
 
 def write_wav(path, data, rate):
